@@ -1,6 +1,6 @@
 #!/bin/bash
 # determinism proof, false-alarm hunt, sensitivity + specificity self-tests, in that order
 V="$(cd "$(dirname "$0")/.." && pwd)"
-python3 $V/selftest/determinism.py 1500 4242 | tail -12
+python3 $V/selftest/determinism.py 1500 4242 | tail -14
 $V/selftest/seed_sweep.sh 12
 RUNS="${RUNS:-}" $V/selftest/run_selftests.sh
